@@ -96,6 +96,19 @@ def run(ctx):
         neg[dev] = (r.invariant_violated + r.property_violated)[0]
     ctx.states, ctx.transitions = st, tr
     ctx.notes["negative_tests"] = neg
+    # unbounded histories: the invariants are INDUCTIVE (Apalache, spec/Apa_Entropy.tla = the same module, typed)
+    from .. import tlc
+    files = ["Apa_Entropy.tla", "Entropy.tla"]
+    ind = {}
+    for name, kw, want in (("Init => IndInv", dict(init="Init", inv="IndInv", length=0), "ok"),
+                           ("IndInv /\\ Next => IndInv'", dict(init="IndInit", inv="IndInv", length=1), "ok"),
+                           ("IndInv /\\ Next => prng unchanged by New", dict(init="IndInit", inv="PrngUntouched", length=1), "ok"),
+                           ("negative: deviation 'short' breaks the step", dict(init="IndInit", inv="IndInv", length=1, next_="NextShort"), "violation")):
+        verdict, tail, secs = tlc.run_apalache("Apa_Entropy", files, **kw)
+        if verdict != want:
+            raise core.MachineryError("Apalache step %r: expected %s, got %s\n%s" % (name, want, verdict, tail))
+        ind[name] = {"result": verdict, "wall_s": round(secs, 1)}
+    ctx.notes["inductive_invariant_apalache"] = ind
     # action labels
     ctx.mc("Entropy", core.cfg_of("Entropy.cfg").replace("MaxSteps = 3", "MaxSteps = 2"), coverage=True, label="action-label run")
     ctx.require_actions("Entropy", ["Reseed", "PrngDraw", "New"])
@@ -197,8 +210,10 @@ def run(ctx):
              "different reseed patterns; every fed bit flipped once per length (influence on every entropy bit incl. the MSB); "
              "same-PRNG-state freshness with the real OS source; distinct = history shape / length / route",
         assumptions=["the exact mapping from OS bytes to entropy is not constrained (any use that lets every entropy bit vary passes)",
-                     "collision probability of the freshness test is < 2^-100"],
-        trusted_base=["TLC/SANY", "spec/Entropy.tla, Bip39.tla", "wrappers on os.urandom / random._urandom (harness/recorders.py)", "hashlib"],
+                     "collision probability of the freshness test is < 2^-100",
+                     "inductive step (Apalache): start states are all IndInv states whose request/output sequences have at most 4 "
+                     "elements (Gen bound); each clause of IndInv relates at most two outputs and one request (small-model argument)"],
+        trusted_base=["TLC/SANY", "Apalache 0.58 + Z3 (inductive step)", "spec/Entropy.tla, Apa_Entropy.tla, Bip39.tla", "wrappers on os.urandom / random._urandom (harness/recorders.py)", "hashlib"],
         checker_cmd="./check C08 --tier " + ctx.tier)
 
 
